@@ -286,7 +286,7 @@ func prop(c Case) (err error) {
 		select {
 		case ev := <-ch:
 			return ev, true
-		case <-time.After(5 * time.Second):
+		case <-pbt.After(5 * time.Second):
 			return nil, false
 		}
 	}
@@ -312,11 +312,11 @@ func prop(c Case) (err error) {
 					return nil, false
 				}
 				return ev, true
-			case <-time.After(d):
+			case <-pbt.After(d):
 				return nil, false
 			}
 		}
-		deadline := time.Now().Add(d)
+		deadline := time.Now().Add(pbt.Scaled(d))
 		for {
 			if s.HasPendingEvent() {
 				ev, ok := pollGuard()
@@ -366,7 +366,7 @@ func prop(c Case) (err error) {
 		return true
 	}
 	idle := 0
-	deadline := time.Now().Add(30 * time.Second)
+	deadline := time.Now().Add(pbt.Scaled(30 * time.Second))
 	for !complete() && idle < 3 && time.Now().Before(deadline) {
 		ev, ok := next(1500 * time.Millisecond)
 		if hasPendingViolation != nil {
@@ -387,7 +387,7 @@ func prop(c Case) (err error) {
 	}
 	select {
 	case <-prodDone:
-	case <-time.After(guardTime):
+	case <-pbt.After(guardTime):
 		return fmt.Errorf("a producer (PostEventWait / input feed / resize notification) is still blocked %v after the consumer drained everything", guardTime)
 	}
 	// a little grace for stragglers that would be duplicates
@@ -438,7 +438,7 @@ func prop(c Case) (err error) {
 						return nil, false
 					}
 					return ev, true
-				case <-time.After(d):
+				case <-pbt.After(d):
 					return nil, false
 				}
 			}
@@ -453,7 +453,7 @@ func prop(c Case) (err error) {
 					return fmt.Errorf("%s failed: %v", what, e)
 				}
 				return nil
-			case <-time.After(guardTime):
+			case <-pbt.After(guardTime):
 				return fmt.Errorf("%s did not return within %v", what, guardTime)
 			}
 		}
@@ -547,7 +547,7 @@ func prop(c Case) (err error) {
 	select {
 	case <-done:
 		finished = true
-	case <-time.After(guardTime):
+	case <-pbt.After(guardTime):
 		return fmt.Errorf("Fini did not return within %v", guardTime)
 	}
 	if c.Channel {
@@ -559,7 +559,7 @@ func prop(c Case) (err error) {
 		}()
 		select {
 		case <-closed:
-		case <-time.After(5 * time.Second):
+		case <-pbt.After(5 * time.Second):
 			return fmt.Errorf("ChannelEvents did not close its channel after Fini")
 		}
 	}
